@@ -35,7 +35,12 @@ func checkC16(c *Ctx) {
 		want []string
 	}
 	var sites []site
-	for _, cl := range Calls(fn) {
+	bd := func(v ssa.Value) string {
+		var d string
+		Bound(func() { d = Desc(v) })
+		return d
+	}
+	for _, cl := range CallsDeep(fn) {
 		call, ok := cl.(*ssa.Call)
 		if !ok {
 			continue
@@ -45,7 +50,7 @@ func checkC16(c *Ctx) {
 		if f == nil {
 			// calls through config function fields / the name-encoder phi
 			if fld, ok := optionalField(call.Call.Value); ok && len(call.Call.Args) == 2 {
-				p := Desc(call.Call.Args[0])
+				p := bd(call.Call.Args[0])
 				switch {
 				case fld == "EncodeTime" && p == "ent.Time":
 					sites = append(sites, site{"time", call, []string{`!IsZero(ent.Time)`, `cfg.EncodeTime != nil`, `cfg.TimeKey != ""`}})
@@ -62,11 +67,11 @@ func checkC16(c *Ctx) {
 			continue
 		}
 		switch {
-		case f.Name() == "AppendString" && len(args) == 2 && Desc(args[1]) == "ent.Caller.Function":
+		case f.Name() == "AppendString" && len(args) == 2 && bd(args[1]) == "ent.Caller.Function":
 			sites = append(sites, site{"function", call, []string{`cfg.FunctionKey != ""`, `ent.Caller.Defined`}})
-		case f.Name() == "AppendString" && len(args) == 2 && Desc(args[1]) == "ent.Message":
+		case f.Name() == "AppendString" && len(args) == 2 && bd(args[1]) == "ent.Message":
 			sites = append(sites, site{"message", call, []string{`cfg.MessageKey != ""`}})
-		case f.Name() == "AppendString" && len(args) == 2 && Desc(args[1]) == "ent.Stack":
+		case f.Name() == "AppendString" && len(args) == 2 && bd(args[1]) == "ent.Stack":
 			sites = append(sites, site{"stack", call, []string{`cfg.StacktraceKey != ""`, `ent.Stack != ""`}})
 		case f.Name() == "AppendString" && len(args) == 2 && strings.HasSuffix(Desc(args[1]), ".LineEnding"):
 			sites = append(sites, site{"line-ending", call, []string{}})
@@ -92,20 +97,24 @@ func checkC16(c *Ctx) {
 			continue
 		}
 		var got []string
-		for _, a := range AtomStrings(Guards(s.in)) {
-			if strings.Contains(a, "rangeindex") {
-				continue // after the join loop
+		Bound(func() {
+			for _, a := range AtomStrings(Guards(s.in)) {
+				if strings.Contains(a, "rangeindex") {
+					continue // after the join loop
+				}
+				a = normCfg(a)
+				a = strings.ReplaceAll(a, fn.Params[0].Name()+".jsonEncoder.", "")
+				got = append(got, a)
 			}
-			a = normCfg(a)
-			a = strings.ReplaceAll(a, "c.jsonEncoder.", "")
-			got = append(got, a)
-		}
-		sort.Strings(got)
+		})
+		got = uniqSorted(got)
 		want := append([]string{}, s.want...)
 		sort.Strings(want)
 		c.Check(strings.Join(got, " ∧ ") == strings.Join(want, " ∧ "), "R16.1", name, "guards/"+n, s.in.Pos(), "the %s part is present exactly under {%s}; found {%s}", n, strings.Join(want, ", "), strings.Join(got, ", "))
 	}
-	is := func(x ssa.Instruction) func(ssa.Instruction) bool { return func(i ssa.Instruction) bool { return i == x } }
+	is := func(x ssa.Instruction) func(ssa.Instruction) bool {
+		return func(i ssa.Instruction) bool { return i == x }
+	}
 	for i := 0; i+1 < len(order); i++ {
 		a, okA := by[order[i]]
 		b, okB := by[order[i+1]]
@@ -155,11 +164,11 @@ func checkC16(c *Ctx) {
 			ok = ok && h1 != nil && h1 == h2
 			// Fprint of element i on every iteration
 			elemRead := false
-			for _, in := range j.in.Block().Instrs {
-				if ia, isIA := in.(*ssa.IndexAddr); isIA && Desc(ia) == "getSliceEncoder().elems[(φrangeindex + 1)]" {
+			AllInstrs(fn, func(in ssa.Instruction) {
+				if ia, isIA := in.(*ssa.IndexAddr); isIA && LoopHeader(ia.Block()) == h2 && Dominates(ia, j.in) && Desc(ia) == "getSliceEncoder().elems[(φrangeindex + 1)]" {
 					elemRead = true
 				}
-			}
+			})
 			ok = ok && elemRead
 		}
 		c.Check(ok, "R16.2", name, "join-separator-between", j.in.Pos(), "columns are joined with the configured separator written exactly before every element but the first")
@@ -205,8 +214,8 @@ func checkC16(c *Ctx) {
 	// ---------------- R16.3 ----------------
 	{
 		wn := wc.String()
-		var clone, add, closeNS, lenCall, open, write, closeB ssa.Instruction
-		for _, cl := range Calls(wc) {
+		var clone, add, closeNS, open, write, closeB ssa.Instruction
+		for _, cl := range CallsDeep(wc) {
 			f := CalleeFunc(cl)
 			if f == nil {
 				continue
@@ -218,10 +227,6 @@ func checkC16(c *Ctx) {
 				add = cl
 			case "closeOpenNamespaces":
 				closeNS = cl
-			case "Len":
-				if strings.HasSuffix(Desc(Args(cl)[0]), ".buf") {
-					lenCall = cl
-				}
 			case "AppendByte":
 				if b, ok := constBytes(Args(cl)[1]); ok && Desc(Args(cl)[0]) == "line" {
 					if b[0] == '{' {
@@ -231,23 +236,33 @@ func checkC16(c *Ctx) {
 						closeB = cl
 					}
 				}
-			case "Write":
+			case "Write", "AppendBytes":
 				if Desc(Args(cl)[0]) == "line" {
 					write = cl
 				}
 			}
 		}
-		ok := clone != nil && add != nil && closeNS != nil && lenCall != nil && open != nil && write != nil && closeB != nil
+		ok := clone != nil && add != nil && closeNS != nil && open != nil && write != nil && closeB != nil
 		if !ok {
 			c.Bad("R16.3", wn, "shape", wc.Pos(), "writeContext must clone, add fields, close namespaces, test emptiness and wrap the bytes in braces")
 		} else {
-			c.Check(Desc(Args(clone.(ssa.CallInstruction))[0]) == "c.jsonEncoder" && mustPass(wc, func(i ssa.Instruction) bool { return i == clone }), "R16.3", wn, "clones-embedded-encoder", clone.Pos(), "the context is always rendered on a clone of the embedded JSON encoder (which holds the With-context bytes)")
+			rcv := wc.Params[0].Name()
+			c.Check(Desc(Args(clone.(ssa.CallInstruction))[0]) == rcv+".jsonEncoder" && mustPass(wc, func(i ssa.Instruction) bool { return i == clone }), "R16.3", wn, "clones-embedded-encoder", clone.Pos(), "the context is always rendered on a clone of the embedded JSON encoder (which holds the With-context bytes)")
 			ctxD := Desc(Args(add.(ssa.CallInstruction))[0])
-			c.Check(strings.Contains(ctxD, "Clone(c.jsonEncoder)") && Strip(Args(add.(ssa.CallInstruction))[1]) == ssa.Value(wc.Params[2]) && Dominates(clone, add), "R16.3", wn, "fields-into-clone", add.Pos(), "the call-site fields go into that clone (%s)", ctxD)
-			c.Check(Dominates(add, closeNS) && Dominates(closeNS, lenCall) && strings.Contains(Desc(Args(closeNS.(ssa.CallInstruction))[0]), "Clone(c.jsonEncoder)"), "R16.3", wn, "namespaces-closed-before-empty-test", closeNS.Pos(), "open namespaces are closed on the clone before its emptiness is tested")
-			c.Check(Dominates(open, write) && Dominates(write, closeB) && strings.HasPrefix(Desc(Args(write.(ssa.CallInstruction))[1]), "Bytes(") && containsS(AtomStrings(Guards(open)), Desc(lenCall.(ssa.Value))+" > 0"), "R16.3", wn, "braces-around-context", open.Pos(), "a non-empty context is written as '{' + the clone's bytes + '}'")
+			cloneD := "Clone(" + rcv + ".jsonEncoder)"
+			c.Check(strings.Contains(ctxD, cloneD) && Strip(Args(add.(ssa.CallInstruction))[1]) == ssa.Value(wc.Params[2]) && Dominates(clone, add), "R16.3", wn, "fields-into-clone", add.Pos(), "the call-site fields go into that clone (%s)", ctxD)
+			// emptiness test on the clone's buffer guards the braces, and comes after the namespaces were closed
+			var emptyTest string
+			for _, a := range AtomStrings(Guards(open)) {
+				if strings.Contains(a, cloneD) && strings.HasSuffix(a, ".buf) > 0") || strings.HasSuffix(a, ".buf)) > 0") && strings.Contains(a, cloneD) {
+					emptyTest = a
+				}
+			}
+			c.Check(Dominates(add, closeNS) && Dominates(closeNS, open) && strings.Contains(Desc(Args(closeNS.(ssa.CallInstruction))[0]), cloneD) && emptyTest != "", "R16.3", wn, "namespaces-closed-before-empty-test", closeNS.Pos(), "open namespaces are closed on the clone before its emptiness is tested (%s)", emptyTest)
+			wd := Desc(Args(write.(ssa.CallInstruction))[1])
+			c.Check(Dominates(open, write) && Dominates(write, closeB) && strings.HasPrefix(wd, "Bytes(") && strings.Contains(wd, cloneD), "R16.3", wn, "braces-around-context", open.Pos(), "a non-empty context is written as '{' + the clone's bytes + '}' (%s)", wd)
 			okSep := false
-			for _, cl := range Calls(wc) {
+			for _, cl := range CallsDeep(wc) {
 				if f := CalleeFunc(cl); f != nil && f.Name() == "addSeparatorIfNecessary" && Dominates(cl, open) && cl.Block() == open.Block() {
 					okSep = true
 				}
